@@ -8,6 +8,7 @@ import (
 	"math/rand"
 	"os"
 	"runtime"
+	"runtime/debug"
 	"sort"
 	"strings"
 	"time"
@@ -263,6 +264,10 @@ func watchMemory() {
 
 func main() {
 	if len(os.Args) > 1 && os.Args[1] == "worker" {
+		// a worker is single threaded: keep the Go runtime from starting a GC thread per core in each of the
+		// parallel worker processes
+		runtime.GOMAXPROCS(2)
+		debug.SetGCPercent(400)
 		watchMemory()
 	}
 	vh.RegisterFunc("codec", runCodecCase)
